@@ -264,11 +264,19 @@ def shard(ctx, arg):
     from androguard.core import dex
     rng = ctx.rng("c05", idx)
     for k in range(count):
-        m = G.gen_model(rng)
+        padcase = (ctx.quick and idx in (1, 2) and k == 1) or (not ctx.quick and k % 97 == 1)
+        m = G.gen_model(rng, nclasses=5) if padcase else G.gen_model(rng)
         if rng.random() < 0.5:
             G.enrich(rng, m)  # annotations, static values, debug info: more sections, index diffs shift
         if rng.random() < 0.3:
             m.version = rng.choice([b"035", b"037", b"038", b"039"])
+        if padcase:
+            # more than 32768 type ids: a padding class whose static fields have 33000 distinct types sorting in front pushes the type indices of the
+            # program's own classes, interfaces and parameter lists (type_list entries are UNSIGNED 16 bit) beyond 0x7FFF
+            pad = m.add_class("L$$/Pad;", W.ACC_PUBLIC | W.ACC_ABSTRACT)
+            for i in range(33000 if idx == 1 or not ctx.quick else 400):
+                pad.add_field("t%05d" % i, "L$$/T%05d;" % i, W.ACC_STATIC | W.ACC_PUBLIC)
+            ctx.count("files_with_padding_types_in_front")
         opts = {}
         if rng.random() < 0.2:
             prng = __import__("random").Random(rng.getrandbits(32))
@@ -321,4 +329,5 @@ def run(ctx):
     ctx.run_shards(MOD, "shard", [[i, per] for i in range(16)], timeout=3000)
     ctx.require_counter("DEX_parsed", 100)
     ctx.require_counter("lookups", 1000)
+    ctx.require_counter("files_with_padding_types_in_front", 1)
     ctx.min_distinct = 10
